@@ -373,15 +373,23 @@ func parseTerm(term string, f int) (Set, termKind, error) {
 }
 
 func parseNumber(s string) (int, bool) {
-	if s == "" || len(s) > 9 {
+	if s == "" {
 		return 0, false
 	}
+	// Arbitrarily long digit strings are numbers; beyond a billion the exact value cannot matter for any field
+	// or step (every field's range is below 60), so the result saturates there instead of overflowing.
+	const sat = 1_000_000_000
 	n := 0
 	for _, c := range s {
 		if c < '0' || c > '9' {
 			return 0, false
 		}
-		n = n*10 + int(c-'0')
+		if n < sat {
+			n = n*10 + int(c-'0')
+		}
+		if n > sat {
+			n = sat
+		}
 	}
 	return n, true
 }
